@@ -51,8 +51,15 @@ Zh9999(n, top) ==
       ss == IF s > 0 THEN (IF s = 1 /\ q = 0 /\ b = 0 /\ top THEN Shi ELSE CjkDigit[s] \o Shi) ELSE IF b > 0 /\ g > 0 THEN Ling ELSE ""
       gs == IF g > 0 THEN CjkDigit[g] ELSE ""
   IN qs \o bs \o ss \o gs
-SpellZh(n) == IF n = 0 THEN Ling ELSE IF n < 10000 THEN Zh9999(n, TRUE)
-              ELSE CjkDigit[n \div 10000] \o Wan \o (IF n % 10000 = 0 THEN "" ELSE (IF n % 10000 < 1000 THEN Ling ELSE "") \o Zh9999(n % 10000, FALSE))
+Yi == "{4ebf}"
+(* below 10^8: the ten-thousands written like a number of their own followed by wan; a gap is filled by one ling *)
+SpellZh8(n, top) == LET hi == n \div 10000 lo == n % 10000 IN
+                    IF hi = 0 THEN Zh9999(lo, top)
+                    ELSE Zh9999(hi, top) \o Wan \o (IF lo = 0 THEN "" ELSE (IF lo < 1000 THEN Ling ELSE "") \o Zh9999(lo, FALSE))
+SpellZh(n) == IF n = 0 THEN Ling
+              ELSE LET hi == n \div 100000000 lo == n % 100000000 IN
+                   IF hi = 0 THEN SpellZh8(lo, TRUE)
+                   ELSE SpellZh8(hi, TRUE) \o Yi \o (IF lo = 0 THEN "" ELSE (IF lo < 10000000 THEN Ling ELSE "") \o SpellZh8(lo, FALSE))
 (* Japanese: no ling, 1 is omitted before ten / hundred / thousand *)
 Ja9999(n) ==
   LET q == n \div 1000 b == (n \div 100) % 10 s == (n \div 10) % 10 g == n % 10 IN
@@ -105,8 +112,11 @@ CONSTANTS Ns, Cultures
 MkCase(cul, n) ==
   LET text == Spell(cul, n) IN
   [api |-> "number", culture |-> cul, text |-> text, s |-> 0, e |-> CpLen(text) - 1, expect |-> ToString(n), variant |-> "standard", shape |-> DigitPattern(ToString(n)) \o (IF cul = "it-it" /\ n % 10 = 3 /\ n > 20 /\ n < 100 THEN "-accented-tre" ELSE ""),
-   size |-> (IF n < 100 THEN "<100" ELSE IF n < 1000 THEN "<10^3" ELSE "<10^5")]
+   size |-> (IF n < 100 THEN "<100" ELSE IF n < 1000 THEN "<10^3" ELSE IF n < 100000 THEN "<10^5" ELSE ">=10^8")]
+(* Chinese numbers with a yi (10^8) section: the sections after it are round, sparse or full *)
+ZhBigNs == {100000000, 120000000, 350000000, 100010000, 1200000000, 1234560000, 2000000001, 305000000, 110000000, 1000100010}
 Cases == { MkCase(t[1], t[2]) : t \in { x \in Cultures \X Ns : InDomain(x[1], x[2]) } }
+         \cup (IF "zh-cn" \in Cultures THEN { MkCase("zh-cn", n) : n \in ZhBigNs } ELSE {})
 
 Verdict(c, obs) ==
   LET es == obs.ents IN
